@@ -1097,4 +1097,145 @@ theorem dropWhile_ff_nil (l : Bytes) (h : l.dropWhile (· == 0xFF) = []) : beVal
   have hl : l.length = k := by rw [hk]; simp
   simp [beValue_nil] at this
   rw [hl]; exact this
+
+theorem encUnsigned_spec (w v : Nat) (hv : v < 256 ^ w) :
+    isMinimalTC (encUnsigned w v) = true ∧ tcValue (encUnsigned w v) = (v : Int) := by
+  unfold encUnsigned
+  by_cases h0 : v = 0
+  · subst h0; simp [isMinimalTC, tcValue_single]
+  · have hne : ¬ (v == 0) = true := by simp [h0]
+    simp only [hne, Bool.false_eq_true, if_false]
+    have hl := beValue_toBE_of_lt w v hv
+    cases hd : (toBE w v).dropWhile (· == 0) with
+    | nil => exact absurd (by rw [← hl]; exact dropWhile_zero_nil _ hd) h0
+    | cons b r =>
+      simp only [byte_and80_ne0, decide_eq_true_eq]
+      have := pos_enc _ b r hd
+      rw [hl] at this
+      exact this
+
+theorem encSigned_spec (w : Nat) (v : Int)
+    (hlo : -(128 * (256 : Int) ^ w) ≤ v) (hhi : v < 128 * (256 : Int) ^ w) :
+    isMinimalTC (encSigned (w + 1) v) = true ∧ tcValue (encSigned (w + 1) v) = v := by
+  unfold encSigned
+  by_cases h0 : v = 0
+  · subst h0; simp [isMinimalTC, tcValue_single]
+  · have hne : ¬ (v == 0) = true := by simp [h0]
+    simp only [hne, Bool.false_eq_true, if_false]
+    by_cases h1 : v = -1
+    · subst h1; simp [isMinimalTC, tcValue_single]
+    · have hne1 : ¬ (v == -1) = true := by simp [h1]
+      simp only [hne1, Bool.false_eq_true, if_false]
+      rw [full, powI_succ]
+      have hP := powI_pos w
+      by_cases hneg : v < 0
+      · simp only [hneg, if_true]
+        have hmod : v % (256 * (256 : Int) ^ w) = v + 256 * (256 : Int) ^ w := by
+          rw [← Int.add_emod_right v, Int.emod_eq_of_lt (by omega) (by omega)]
+        rw [hmod]
+        have hnn : 0 ≤ v + 256 * (256 : Int) ^ w := by omega
+        have hlt : (v + 256 * (256 : Int) ^ w).toNat < 256 ^ (w + 1) := by
+          have c : ((256 : Nat) : Int) = 256 := rfl
+          rw [Int.toNat_lt hnn, Int.natCast_pow, c, powI_succ]
+          omega
+        have hl := beValue_toBE_of_lt (w + 1) _ hlt
+        have hlen := toBE_length (w + 1) (v + 256 * (256 : Int) ^ w).toNat
+        cases hd : (toBE (w + 1) (v + 256 * (256 : Int) ^ w).toNat).dropWhile (· == 0xFF) with
+        | nil =>
+          exfalso
+          have := dropWhile_ff_nil _ hd
+          rw [hl, hlen] at this
+          have h2 := congrArg (fun n : Nat => (n : Int)) this
+          simp only [Int.natCast_add, Int.natCast_pow, Int.toNat_of_nonneg hnn] at h2
+          have c : ((256 : Nat) : Int) = 256 := rfl
+          rw [c, powI_succ] at h2
+          simp at h2
+          omega
+        | cons b r =>
+          simp only [byte_and80_ne80, decide_eq_true_eq]
+          have := neg_enc _ b r hd
+          rw [hl, hlen, Int.toNat_of_nonneg hnn, powI_succ] at this
+          refine ⟨this.1, ?_⟩
+          rw [this.2]; omega
+      · simp only [hneg, if_false]
+        have hmod : v % (256 * (256 : Int) ^ w) = v := Int.emod_eq_of_lt (by omega) (by omega)
+        rw [hmod]
+        have hnn : 0 ≤ v := by omega
+        have hlt : v.toNat < 256 ^ (w + 1) := by
+          have c : ((256 : Nat) : Int) = 256 := rfl
+          rw [Int.toNat_lt hnn, Int.natCast_pow, c, powI_succ]
+          omega
+        have hl := beValue_toBE_of_lt (w + 1) _ hlt
+        cases hd : (toBE (w + 1) v.toNat).dropWhile (· == 0) with
+        | nil =>
+          exfalso
+          have := dropWhile_zero_nil _ hd
+          rw [hl] at this
+          omega
+        | cons b r =>
+          simp only [byte_and80_eq80, decide_eq_true_eq]
+          have := pos_enc _ b r hd
+          rw [hl, Int.toNat_of_nonneg hnn] at this
+          exact this
+
+theorem encU8_spec (v : Int) (h : inRange false 1 v = true) :
+    isMinimalTC (encU8 v.toNat) = true ∧ tcValue (encU8 v.toNat) = v := by
+  rw [inRange_unsigned] at h
+  obtain ⟨h0, h1⟩ := h
+  have h1' : v < 256 := by simpa using h1
+  unfold encU8
+  have hm : (UInt8.ofNat v.toNat).toNat = v.toNat := by rw [toNat_ofNat]; omega
+  by_cases hb : v.toNat > 0x7F
+  · simp only [hb, if_true, List.singleton_append]
+    constructor
+    · rw [isMinimalTC_cons2, hm]; exact ⟨by omega, by simp⟩
+    · rw [tcValue_of_lt 0 _ (by decide), beValue_two, hm]; simp; omega
+  · simp only [hb, if_false, List.nil_append]
+    refine ⟨rfl, ?_⟩
+    rw [tcValue_single, hm]
+    have : ¬ v.toNat ≥ 128 := by omega
+    simp only [this, if_false]; omega
+
+theorem encI8_spec (v : Int) (h : inRange true 1 v = true) :
+    isMinimalTC (encI8 v) = true ∧ tcValue (encI8 v) = v := by
+  have h' := (inRange_signed 0 v).mp h
+  simp only [Int.pow_zero] at h'
+  unfold encI8
+  refine ⟨rfl, ?_⟩
+  rw [tcValue_single, toNat_ofNat]
+  split <;> omega
+
+theorem encInt_signed_eq (ty : IntTy) (hs : ty.signed = true) (hne : ty ≠ .i8) (v : Int) :
+    encInt ty v = encSigned ty.width v := by
+  cases ty <;> first | rfl | exact absurd rfl hne | exact absurd hs (by decide)
+
+theorem encInt_unsigned_eq (ty : IntTy) (hs : ty.signed = false) (hne : ty ≠ .u8) (v : Int) :
+    encInt ty v = encUnsigned ty.width v.toNat := by
+  cases ty <;> first | rfl | exact absurd rfl hne | exact absurd hs (by decide)
+
+theorem width_pos (ty : IntTy) : ∃ w, ty.width = w + 1 := by
+  cases ty <;> exact ⟨_, rfl⟩
+
+/-- **C14, encoding.**  Every fixed-width integer type encodes every value of its range to a minimal two's
+    complement octet string denoting exactly that value. -/
+theorem encInt_spec (ty : IntTy) (v : Int) (h : inRange ty.signed ty.width v = true) :
+    isMinimalTC (encInt ty v) = true ∧ tcValue (encInt ty v) = v := by
+  by_cases hu8 : ty = .u8
+  · subst hu8; exact encU8_spec v h
+  by_cases hi8 : ty = .i8
+  · subst hi8; exact encI8_spec v h
+  cases hs : ty.signed with
+  | true =>
+    rw [encInt_signed_eq ty hs hi8]
+    obtain ⟨w, hw⟩ := width_pos ty
+    rw [hs, hw] at h
+    rw [hw]
+    have h' := (inRange_signed w v).mp h
+    exact encSigned_spec w v h'.1 h'.2
+  | false =>
+    rw [encInt_unsigned_eq ty hs hu8]
+    rw [hs] at h
+    have h' := (inRange_unsigned _ v).mp h
+    have := encUnsigned_spec ty.width v.toNat (by rw [Int.toNat_lt h'.1, Int.natCast_pow]; exact h'.2)
+    rw [Int.toNat_of_nonneg h'.1] at this; exact this
 end Bcder.Props.C14
